@@ -541,6 +541,12 @@ Definition mon_C03 (sc : scenario) (c0 : cluster) (out : outcome) : bool :=
                          (spared t) in
   let aliased := filter (fun i => match find_obj (objs c0) i with
                                   | Some c => negb (c_keep c) && pol_ok (o_policy o) (c_owner c)
+                                              (* the filters that run before the UID filter let it through: the
+                                                 namespace is not in use, every dependent was deleted and observed gone *)
+                                              && negb (negb (o_destroy o) && match u_kind (uinfo_of sc i) with KNs => ns_in_use sc (sc_local sc) i | _ => false end)
+                                              && forallb (fun d => existsb (fun e => match e with EPrune _ d' AOk => Nat.eqb d d' | _ => false end) evs
+                                                                   && match last_wait t d with Some WOk => true | _ => false end)
+                                                         (g_dependents (pl_graph pl) i)
                                               && existsb (fun j => match find_obj (objs (out_final out)) j with
                                                                    | Some c' => N.eqb (c_uid c') (c_uid c) | None => false end) ok_applied
                                   | None => false end) (spared t) in
